@@ -783,10 +783,15 @@ func (s *Spec) ParamsFor(method, path string) map[string]spec.Parameter {
 // parameters. If the callback is set to nil, panics upon errors.
 func (s *Spec) SafeParamsFor(method, path string, callmeOnError ErrorOnParamFunc) map[string]spec.Parameter {
 	res := make(map[string]spec.Parameter)
+	op, found := s.OperationFor(method, path)
+	if !found {
+		return res
+	}
+
 	if pi, ok := s.AllPaths()[path]; ok {
 		s.paramsAsMap(pi.Parameters, res, callmeOnError)
-		s.paramsAsMap(s.operations[strings.ToUpper(method)][path].Parameters, res, callmeOnError)
 	}
+	s.paramsAsMap(op.Parameters, res, callmeOnError)
 
 	return res
 }
